@@ -30,6 +30,9 @@ pub struct CallPlan {
     pub script: Script,
     pub req_src_pending: u64,
     pub extra_polls: u32,
+    /// streaming responses: after this many items the caller asks for `Streaming::trailers()`
+    /// instead of the next message (which drains the rest of the stream)
+    pub early_trailers_after: Option<usize>,
 }
 
 #[derive(Debug, Default)]
@@ -43,6 +46,8 @@ pub struct Observed {
     pub clean_end: bool,
     pub after_terminal: Vec<String>,
     pub trailers: Option<Result<Option<MetadataMap>, String>>,
+    /// outcome of an early `trailers()` call (see `CallPlan::early_trailers_after`)
+    pub early_trailers: Option<Result<Option<MetadataMap>, Status>>,
 }
 
 #[allow(async_fn_in_trait)]
@@ -109,10 +114,21 @@ fn mk_request<T>(plan: &CallPlan, body: T) -> Request<T> {
     r
 }
 
-async fn drain<M: SimMsg>(sim: &Sim, mut s: Streaming<M>, extra: u32, obs: &mut Observed) {
+async fn drain<M: SimMsg>(sim: &Sim, mut s: Streaming<M>, extra: u32, early: Option<usize>, obs: &mut Observed) {
     let mut terminal = false;
     let mut n_after = 0;
     loop {
+        if !terminal && early == Some(obs.items.len()) && obs.early_trailers.is_none() {
+            // the caller is no longer interested in messages: trailers() drains the stream
+            let r = s.trailers().await;
+            sim.ev(|| format!("client: trailers() after {} items -> {:?}", obs.items.len(), r.as_ref().map(|o| o.is_some()).map_err(|e| e.code())));
+            terminal = true;
+            match &r {
+                Ok(_) => obs.clean_end = true,
+                Err(e) => obs.stream_err = Some(e.clone()),
+            }
+            obs.early_trailers = Some(r);
+        }
         match s.message().await {
             Ok(Some(m)) => {
                 if terminal {
@@ -179,14 +195,14 @@ pub async fn perform<M: SimMsg, C: ClientOps<M>>(sim: &Sim, client: &mut C, plan
         2 => match client.server_stream(mk_request(plan, first)).await {
             Ok(r) => {
                 obs.head_md = Some(r.metadata().clone());
-                drain(sim, r.into_inner(), plan.extra_polls, &mut obs).await;
+                drain(sim, r.into_inner(), plan.extra_polls, plan.early_trailers_after, &mut obs).await;
             }
             Err(e) => obs.call_err = Some(e),
         },
         _ => match client.bidi(mk_request(plan, MsgSource::new(sim, all(()), plan.req_src_pending))).await {
             Ok(r) => {
                 obs.head_md = Some(r.metadata().clone());
-                drain(sim, r.into_inner(), plan.extra_polls, &mut obs).await;
+                drain(sim, r.into_inner(), plan.extra_polls, plan.early_trailers_after, &mut obs).await;
             }
             Err(e) => obs.call_err = Some(e),
         },
@@ -299,6 +315,38 @@ pub fn judge<M: SimMsg>(sim: &Sim, plan: &CallPlan, obs: &Observed, log: Option<
         if let Some(d) = gen::md_mismatch(&s.initial_md, md) {
             v2(sim, "response-metadata-differs", format!("{who}: response metadata at the caller: {d}"));
         }
+    }
+    if let Some(early) = &obs.early_trailers {
+        // the caller stopped after j items and asked for the trailers: the items are the first j,
+        // the outcome is the handler's (an error status, or OK with its trailing metadata)
+        sim.probe("trailers-requested-before-the-end");
+        let j = plan.early_trailers_after.unwrap_or(0);
+        if obs.items[..] != want_msgs[..j.min(want_msgs.len())] {
+            v2(sim, "response-messages-differ", format!("{who}: the first {j} items differ from what the handler produced"));
+        }
+        match (&s.end, early) {
+            (Some(w), Err(e)) => status_check(sim, &who, w, e),
+            (Some(w), Ok(_)) => v2(sim, "error-reported-as-success", format!("{who}: handler ended with {}, trailers() after {j} items returned Ok", w.summary())),
+            (None, Err(e)) => v2(sim, "success-reported-as-error", format!("{who}: handler succeeded, trailers() after {j} items failed with {:?} {:?}", e.code(), e.message())),
+            (None, Ok(t)) => {
+                if !s.ok_trailing_md.is_empty() {
+                    match t {
+                        Some(t) => {
+                            if let Some(d) = gen::md_mismatch(&s.ok_trailing_md, t) {
+                                v2(sim, "trailing-metadata-differs", format!("{who}: trailing metadata returned by an early trailers(): {d}"));
+                            }
+                        }
+                        None => v2(sim, "trailing-metadata-lost", format!("{who}: the handler ended in OK with trailing metadata {}, an early trailers() returned None", gen::md_summary(&s.ok_trailing_md))),
+                    }
+                }
+            }
+        }
+        for a in &obs.after_terminal {
+            if a != "end" {
+                v2(sim, "event-after-terminal", format!("{who}: after trailers() the stream produced {a}"));
+            }
+        }
+        return;
     }
     if obs.items != want_msgs {
         v2(
@@ -517,7 +565,11 @@ pub fn gen_plan(sim: &Sim, id: u64, shape: usize, max_msg: usize) -> CallPlan {
         },
         req_src_pending: sim.pick(&[0u64, 0, 20, 70]),
         extra_polls: sim.range(0, 2) as u32,
+        early_trailers_after: None,
     };
+    if shape >= 2 && !plan.script.fail_at_call && sim.chance(1, 6) {
+        plan.early_trailers_after = Some(sim.range(0, plan.script.msgs.len() as u64) as usize);
+    }
     plan.script.ok_trailing_md = ok_trailing_md;
     plan
 }
